@@ -54,7 +54,7 @@ class Op:
     """
 
     def __init__(self, name, impl, to_model=None, compare=None, holds=None, determined=True,
-                 nontrivial=None, mode="exact", model_op=None):
+                 nontrivial=None, mode="exact", model_op=None, shrink=False, valid=None):
         self.name = name
         self.impl = impl
         self.to_model = to_model or (lambda x: x)
@@ -64,6 +64,8 @@ class Op:
         self.nontrivial = nontrivial or (lambda inp, out: not (isinstance(out, dict) and "raise" in out))
         self.mode = mode
         self.model_op = model_op or name
+        self.shrink = shrink      # opt-in greedy shrinking of a failing input (needs `valid` if the
+        self.valid = valid        # property's quantifier restricts inputs: valid(inp) -> bool)
 
 
 class Failure:
@@ -188,6 +190,53 @@ class Ctx:
         self.failures.extend(new_failures)
         return new_failures
 
+    def probe(self, op: Op, inp):
+        """judge one input without recording anything: returns a Failure or None"""
+        try:
+            io = op.impl(inp)
+        except InfraError:
+            raise
+        except Exception as e:  # noqa: BLE001
+            io = canon_exc(e)
+        mo = self.model(op.model_op, op.to_model(inp))
+        if op.holds is not None:
+            msg = op.holds(self, inp, io)
+            if msg:
+                return Failure("property", op.name, inp, io, mo, msg)
+        if op.compare is not None:
+            msg = op.compare(inp, io, mo)
+        else:
+            msg = None if io == mo else "implementation and model disagree"
+        if msg:
+            return Failure("property" if op.determined else "correspondence", op.name, inp, io, mo, msg)
+        return None
+
+    def shrink(self, op: Op, failure, budget=200):
+        """greedy structural shrinking that keeps the failure kind (opt-in per Op)"""
+        cur = failure
+        improved = True
+        while improved and budget > 0:
+            improved = False
+            for cand in _shrink_candidates(cur.inp):
+                if budget <= 0:
+                    break
+                if op.valid is not None:
+                    try:
+                        if not op.valid(cand):
+                            continue
+                    except Exception:  # noqa: BLE001
+                        continue
+                budget -= 1
+                try:
+                    f = self.probe(op, cand)
+                except InfraError:
+                    continue
+                if f is not None and f.kind == failure.kind:
+                    cur = f
+                    improved = True
+                    break
+        return cur
+
     def run_corpus(self, ops):
         """minimised past failures and hand-written corner cases (corpus/<id>/*.json) run first"""
         d = os.path.join(VERIF, "corpus", self.pid)
@@ -271,6 +320,35 @@ class Ctx:
         self.audited = ok
         for p in problems:
             self.fail("audit", "theorem", detail=p)
+
+
+_RAT_RE = None
+
+
+def _shrink_candidates(x):
+    """structurally smaller variants of a JSON value (lists shortened, rationals simplified)"""
+    import re
+    global _RAT_RE
+    if _RAT_RE is None:
+        _RAT_RE = re.compile(r"^-?\d+(/\d+)?$")
+    if isinstance(x, dict):
+        for k, v in x.items():
+            for c in _shrink_candidates(v):
+                y = dict(x)
+                y[k] = c
+                yield y
+    elif isinstance(x, list):
+        for i in range(len(x)):
+            yield x[:i] + x[i + 1:]
+        for i, v in enumerate(x):
+            for c in _shrink_candidates(v):
+                yield x[:i] + [c] + x[i + 1:]
+    elif isinstance(x, str) and _RAT_RE.match(x) and x not in ("0", "1"):
+        from fractions import Fraction
+        q = Fraction(x)
+        for c in ("0", "1", str(int(q)), str(Fraction(round(q * 2), 2)), str(Fraction(round(q * 8), 8))):
+            if c != x:
+                yield c
 
 
 def _ident(s):
@@ -365,6 +443,12 @@ def finish(ctx, replay_mode=False):
         for f in concrete:
             sigs.setdefault((f.op, f.detail[:60]), f)
         for i, f in enumerate(list(sigs.values())[:5]):
+            op = getattr(mod, "OPS", {}).get(f.op)
+            if op is not None and op.shrink and not replay_mode:
+                try:
+                    f = ctx.shrink(op, f)
+                except Exception as e:  # noqa: BLE001
+                    ctx.note("shrinking crashed: %r" % (e,))
             path = write_replay(ctx, f, i)
             lines.append(f"VIOLATION property={ctx.pid} replay={path}")
             violations += 1
